@@ -10,6 +10,16 @@ GENPROG = os.path.join(c.HARNESS_DIR, "genprog")
 NAME_CLASSES = {"DUP_STRUCT", "RESERVED", "SHADOW", "EMPTY_NAME", "ILLEGAL_FIELD", "ILLEGAL_STRUCT", "DUP_FIELD"}
 
 
+SPLIT_TEXT = re.compile(r"(?:[^<>]|\]\]>)(?:<\?.*?\?>)+(?:[^<]|<!\[CDATA\[)", re.S)
+
+
+def split_text_failure(doc_text, err):
+    """KF-C13-SPLITTEXT: character data of one element split by a processing instruction, and the deserializer says so"""
+    m = re.search(r"<[A-Za-z_]", doc_text or "")
+    body = doc_text[m.start():] if m else ""
+    return "found Characters(" in (err or "") and bool(SPLIT_TEXT.search(body))
+
+
 def cargo_build():
     p = subprocess.run(["cargo", "build", "--offline", "--message-format=short"], cwd=GENPROG, stdout=subprocess.PIPE,
                        stderr=subprocess.STDOUT, text=True, env=dict(os.environ, CARGO_NET_OFFLINE="true"), timeout=3000)
@@ -89,13 +99,29 @@ def run_batch(rep, pid, preset, cases, random_n, max_cases, batch, shapes=0, bou
         docs = [d["text"] for d in m["docs"]]
         detail = {"kind": "program", "preset": preset, "tags": sorted(tags), "docs": [{"text": d["text"], "hex": d["hex"]} for d in m["docs"]],
                   "rendered": m["rendered"], "rustc": failing.get(i["id"]), "runs": runs.get(i["id"])}
-        f = None
+        # every tag must be explained by a listed finding, one by one; whatever is left is a violation
+        remaining = set(tags)
+        explained = []
         if tags == {"COMPILE"} and set(i["modeltags"]) & NAME_CLASSES:
             f = rep.match_finding("COMPILE/" + sorted(set(i["modeltags"]) & NAME_CLASSES)[0]) or rep.match_finding("COMPILE/NAMES")
-        elif preset == "serde_xml_rs" and tags <= {"DROPPED_TEXT"} and i.get("textfield"):
+            if f:
+                explained.append(f)
+                remaining.clear()
+        if preset == "serde_xml_rs" and "DESER" in remaining:
+            bad = [r for r in runs.get(i["id"], []) if not (r["a"] and r["c"])]
+            if bad and all(split_text_failure(m["docs"][r["doc"] - 1]["text"], r["err"]) for r in bad):
+                f = rep.match_finding("DESER/SPLIT_TEXT")
+                if f:
+                    explained.append(f)
+                    remaining.discard("DESER")
+        if preset == "serde_xml_rs" and "DROPPED_TEXT" in remaining and i.get("textfield"):
             f = rep.match_finding("DROPPED_TEXT/TEXT_ID")
-        if f:
-            rep.known_finding(f, "%s: %s (e.g. %s)" % (",".join(sorted(tags)), f.get("what_fails", ""), " + ".join(docs)[:300]))
+            if f:
+                explained.append(f)
+                remaining.discard("DROPPED_TEXT")
+        if explained and not remaining:
+            for f in explained:
+                rep.known_finding(f, "%s: %s (e.g. %s)" % (",".join(sorted(tags)), f.get("what_fails", ""), " + ".join(docs)[:300]))
         else:
             rep.violation(detail, "%s for %s: %s" % (",".join(sorted(tags)), " + ".join(docs)[:300],
                                                     failing.get(i["id"]) or str([r["err"] for r in runs.get(i["id"], []) if r["err"] != '"||"'][:1])))
@@ -179,5 +205,9 @@ def replay(obj, rep, pid, preset):
         for line in p.stdout.splitlines():
             f = line.split("\t")
             if f[0] == "RESULT" and not (f[3] == "true" and f[5] == "true" and f[6] == "0" and f[7] == "0" and (f[4] == "true" or preset != "quick_xml")):
+                kf = rep.match_finding("DESER/SPLIT_TEXT") if preset == "serde_xml_rs" else None
+                if kf and f[3] == "false" and split_text_failure(obj["docs"][int(f[2])].get("text", ""), f[9]):
+                    rep.known_finding(kf, "DESER: %s (%s)" % (kf.get("what_fails", ""), obj["docs"][int(f[2])].get("text", "")[:200]))
+                    continue
                 rep.violation(dict(obj, now=line), "document %s: %s" % (f[2], line))
     rep.add(programs=3, disagreements_checked=1, evaluations=3, distinct_nontrivial=3, samples=[[d["text"] for d in obj["docs"]]])
